@@ -12,9 +12,9 @@ static rc::Gen<Op> c03_op()
 	auto jn = rc::gen::arbitrary<bool>();
 	return rc::gen::weightedOneOf<Op>({
 	    {4, op_gen(ADD, conn, path, rc::gen::weightedOneOf<int>({{3, val}, {2, rc::gen::just(-1)}}), rc::gen::weightedElement<int>({{8, 0}, {1, 1}}), tmo, idmode(), jn)},
-	    {1, op_gen(REMOVE, conn, path, zero(), zero(), zero(), idmode(), jn)},
-	    {6, op_gen(SET, conn, path, val, rc::gen::element<int>(0, 2, 2), tmo, idmode(), jn)},
-	    {6, op_gen(CALL, conn, path, rc::gen::weightedOneOf<int>({{3, val}, {1, rc::gen::just(-1)}}), rc::gen::element<int>(0, 2, 2), tmo, idmode(), jn)},
+	    {2, op_gen(REMOVE, conn, path, zero(), rc::gen::element<int>(0, 2, 2), zero(), idmode(), jn)},
+	    {6, op_gen(SET, conn, path, val, rc::gen::element<int>(0, 2, 2), tmo, idmode_long(), jn)},
+	    {6, op_gen(CALL, conn, path, rc::gen::weightedOneOf<int>({{3, val}, {1, rc::gen::just(-1)}}), rc::gen::element<int>(0, 2, 2), tmo, idmode_long(), jn)},
 	    {8, op_gen(REPLY, conn, rng(0, 6), rc::gen::weightedElement<int>({{6, 0}, {3, 1}, {1, 2}, {1, 3}, {1, 4}}), val, zero(), zero(), jn)},
 	    {2, op_gen(ADVANCE, zero(), rng(0, 13), zero(), zero(), zero(), zero(), nojoin())},
 	    {1, op_gen(CONNECT, zero(), rng(0, 3), rng(0, 4), zero(), zero(), zero(), nojoin())},
